@@ -784,7 +784,7 @@ def check(prog, field_names):
                 vals = dict(zip(field_names, fr.fields)) if len(fr.fields) == len(field_names) else {}
                 vals.update(obs)
                 for nm, want_len in (("data_len", (1, 0)), ("frame_len", (1, 6))):
-                    if nm in obs and lin_parts(obs[nm]) != want_len:
+                    if nm in obs and lin_parts(it.to_int(obs[nm])) != want_len:
                         prob("out", "%s() is %s, expected %s" % (nm, obs[nm], mklin(*want_len)))
                 fd = vals.get("frame_data")
                 if not (isinstance(fd, Ref) and fd.loc[0] == "slice" and lin_parts(fd.loc[1]) == (0, 0) and fd.loc[2] is not None and lin_parts(fd.loc[2]) == (1, 6)):
